@@ -1,4 +1,4 @@
-// Code -> spec for C19: random integer metrics on 5-8 points (beyond the exhaustive scope of MC_SparseRips), the real
+// Code -> spec for C19: random integer metrics on 5-8 points (10 and 12 points with dim_max = 1) (beyond the exhaustive scope of MC_SparseRips), the real
 // Sparse_rips_complex and Rips_complex are run and both complexes are logged as NDJSON events for Trace_SparseRips.tla,
 // which recomputes validity, the subcomplex relation, the persistence diagrams and their interleaving, and membership in
 // the specified construction.  The starting point of the farthest-point ordering is random inside the library: every
@@ -107,8 +107,9 @@ int main(int argc, char** argv) {
   std::map<std::string, long> per_family, per_eps;
   const std::vector<std::array<std::int64_t, 2>> eps_g = {{1, 2}, {1, 4}, {3, 4}};
   for (int it = 0; it < ninputs; ++it) {
-    const int n = std::vector<int>{5, 5, 6, 6, 7, 8}[static_cast<std::size_t>(it) % 6];
-    int fam = rnd(0, 2);
+    const bool large = it % 48 == 47;   // graph only (dim_max = 1): exercises the farthest-point ordering on more points
+    const int n = large ? (it % 96 == 47 ? 10 : 12) : std::vector<int>{5, 5, 6, 6, 7, 8}[static_cast<std::size_t>(it) % 6];
+    int fam = large ? rnd(0, 1) : rnd(0, 2);   // (two-level metrics on 12 points have too many tied orderings for TLC)
     Input in = fam == 0 ? gen_l1(n) : fam == 1 ? gen_graph(n) : gen_twolvl(n);
     const std::string family = fam == 0 ? "l1" : fam == 1 ? "graph" : "twolvl";
     Params pr;
@@ -120,7 +121,7 @@ int main(int argc, char** argv) {
       for (auto& r : in.D) for (auto& x : r) x *= 3;
       for (auto& r : in.coords) for (auto& x : r) x *= 3;
     }
-    pr.dmax = n >= 7 ? rnd(1, 2) : rnd(1, 3);   // at most 92 cells for the reduction in TLC
+    pr.dmax = large ? 1 : n >= 7 ? rnd(1, 2) : rnd(1, 3);   // at most 92 cells for the reduction in TLC
     std::vector<std::string> forms = {"matrix", "points"};
     if (!in.coords.empty()) forms.push_back("coords");
     Cx rips = run_rips(in, pr.dmax, forms[static_cast<std::size_t>(it) % forms.size()]);
